@@ -80,7 +80,8 @@ def _track_vals(op, d):
         d.pop(op[1], None)
 
 
-def gen_history(rnd, nops, prune=None, batch_p=0.25, kind=None, abort_p=0.35, undo_p=0.12, fail_p=0.0):
+def gen_history(rnd, nops, prune=None, batch_p=0.25, kind=None, abort_p=0.35, undo_p=0.12, fail_p=0.0,
+                sp_p=0.0, bad_p=0.0):
     """undo_p: probability that the next unit takes the contents BACK to an earlier state (the
     one before the last unit, or an older one) by another route - a committed batch or a run of
     plain operations - so that earlier root hashes are reached again."""
@@ -129,6 +130,14 @@ def gen_history(rnd, nops, prune=None, batch_p=0.25, kind=None, abort_p=0.35, un
             bkeys = set(keys)
             sub = []
             for _ in range(n):
+                if sp_p and rnd.random() < sp_p:
+                    # a savepoint inside the batch: an inner block that is abandoned
+                    sk = set(bkeys)
+                    sub.append(["sp", [gen_op(rnd, universe, pool, sk) for _ in range(rnd.randint(1, 3))]])
+                    continue
+                if bad_p and rnd.random() < bad_p:
+                    sub.append(["badset", universe.key().hex(), rnd.randrange(5)])
+                    continue
                 o = gen_op(rnd, universe, pool, bkeys)
                 _track(o, bkeys)
                 sub.append(o)
@@ -140,6 +149,20 @@ def gen_history(rnd, nops, prune=None, batch_p=0.25, kind=None, abort_p=0.35, un
             if abort is None:
                 keys = bkeys
             note(ops[-1])
+        elif bad_p and rnd.random() < bad_p:
+            if keys and rnd.random() < 0.8:
+                s = rnd.choice(sorted(keys))
+                r = rnd.random()
+                if r < 0.3 or not s:
+                    k = s + bytes([rnd.randrange(256)])                      # runs past a stored key
+                elif r < 0.8:
+                    i = rnd.randrange(len(s))                                # leaves a stored path part-way
+                    k = s[:i] + bytes([s[i] ^ rnd.choice([0x01, 0x10, 0x0F, 0x80])]) + s[i + 1:]
+                else:
+                    k = s[: rnd.randrange(len(s))]                           # ends inside a stored path
+            else:
+                k = universe.key()
+            ops.append(["badset", k.hex(), rnd.randrange(5)])
         else:
             o = gen_op(rnd, universe, pool, keys)
             _track(o, keys)
@@ -151,7 +174,39 @@ def gen_history(rnd, nops, prune=None, batch_p=0.25, kind=None, abort_p=0.35, un
         "pseed": rnd.randrange(1 << 30),
         "ops": ops,
         "universe": universe.kind,
+        "in_handler": rnd.random() < 0.25,
     }
+
+
+def gen_bulk_history(rnd, tier="quick", **kw):
+    """SCALE: a long history (80-160 operations, thorough up to 400) over a dense universe, few
+    batches: tries with dozens of keys, branches with all 16 slots in use, deep shared paths."""
+    n = rnd.randint(80, 160) if tier == "quick" else rnd.randint(150, 400)
+    kind = rnd.choice(["nibbly", "nibbly", "fix3", "k32", "adv", "k40", "ladder", "ladder"])
+    if kind == "ladder":
+        # DEPTH: first store every prefix of one long key (two nodes per byte: a path of 70-100
+        # nodes), in random order, then carry on with ordinary operations over those keys
+        top = bytes(rnd.randrange(256) for _ in range(rnd.choice([36, 40, 48])))
+        lens = list(range(len(top) + 1))
+        rnd.shuffle(lens)
+        pre = [["set", top[:i].hex(), bytes([rnd.randrange(1, 256)] * rnd.choice([1, 1, 2, 40])).hex(), rnd.randrange(2)] for i in lens]
+        case = gen_history(rnd, 20, kind="adv", batch_p=0.05, undo_p=0.0, **kw)
+        tail = []
+        for _ in range(n // 3):
+            k = top[: rnd.randint(0, len(top))]
+            r = rnd.random()
+            if r < 0.5:
+                tail.append(["set", k.hex(), bytes([rnd.randrange(1, 256)] * rnd.choice([1, 3, 33])).hex(), rnd.randrange(2)])
+            elif r < 0.8:
+                tail.append(["del", k.hex(), rnd.randrange(2)])
+            else:
+                tail.append(["set", (k + bytes([rnd.randrange(256)])).hex(), b"x".hex(), 0])
+        case["ops"] = pre + tail + case["ops"]
+        case["universe"] = "ladder"
+    else:
+        case = gen_history(rnd, n, kind=kind, batch_p=0.05, undo_p=0.03, **kw)
+    case["bulk"] = True
+    return case
 
 
 # -------------------------------------------------------------------------- execution
@@ -159,6 +214,30 @@ def apply_plain(trie, model, op, expect=()):
     """Apply one plain op to a real trie (through cut) and to the model.  An exception of a
     type listed in `expect` is returned as Raised and the model is left alone."""
     kind = op[0]
+    if kind == "sp":
+        # ["sp", [plain ops]]: a squash_changes block opened on this trie (inside a batch: on
+        # the batch trie, used as a savepoint), left by an exception that the caller catches
+        # at once: nothing may have happened
+        m2 = dict(model)
+
+        def savepoint():
+            try:
+                with trie.squash_changes() as inner:
+                    for o in op[1]:
+                        apply_plain(inner, m2, o)
+                    raise Boom()
+            except Boom:
+                pass
+
+        cut(savepoint)
+        return None
+    if kind == "badset":
+        # ["badset", key_hex, which]: a write with a non-bytes value: refused, nothing happens
+        bad = [None, "str", 7, ["x"], bytearray(b"ab")][op[2] % 5]
+        res = cut(trie.set, unhx(op[1]), bad, expect=(Exception,))
+        if not isinstance(res, Raised):
+            raise Violation("badarg-accepted", "set(%s, %r) was accepted" % (op[1], bad))
+        return None
     k = unhx(op[1])
     if kind == "set":
         v = unhx(op[2])
@@ -273,8 +352,19 @@ class Runner:
                     raise exc()
                 state["final_root"] = b.root_hash
 
+        def block_in_handler():
+            # the same block, entered while the caller is handling an unrelated exception
+            # (sys.exc_info() is not empty although nothing goes wrong inside the block)
+            try:
+                raise RuntimeError("unrelated exception being handled by the caller")
+            except RuntimeError:
+                return block()
+
+        in_handler = bool(self.case.get("in_handler")) and self.step % 2 == 0
+        if in_handler:
+            self.ctx.count("batch_inside_except_handler")
         try:
-            res = cut(block, expect=ALL_ABORTS)
+            res = cut(block_in_handler if in_handler else block, expect=ALL_ABORTS)
         finally:
             self.in_batch = False
         if isinstance(res, Raised):
